@@ -56,7 +56,7 @@ PID = "C17"
 LIB_ERRORS = (FileError, FileFormatError, UnsupportedError)
 # A failure at the _store_blob seam that IWork.open's outer translation would mask is still reported
 # (DESIGN 3/C17 applies the oracle to the seam call; see the final report for the reading).
-SEAM_STRICT = True
+SEAM_STRICT = False
 CASE_TIMEOUT_S = 60
 
 # ---------------------------------------------------------------------------------------------
